@@ -158,6 +158,14 @@ type Base struct {
 	Kind string ` + "`json:\"kind,omitempty\"`" + `
 }
 
+// Other competes with Base for the JSON name id.
+//
+// swagger:model
+type Other struct {
+	ID    string ` + "`json:\"id\"`" + `
+	Extra bool   ` + "`json:\"extra\"`" + `
+}
+
 type hidden struct {
 	Shown  string ` + "`json:\"shown\"`" + `
 	secret int
@@ -180,6 +188,13 @@ func c16SpecialTypes() []goType {
 		mk("SEmbedAllOf", "embedded struct with swagger:allOf", "struct {\n\t// swagger:allOf\n\tBase\n\tOwn string `json:\"own\"`\n}"),
 		mk("SEmbedTagged", "embedded struct with a json tag", "struct {\n\tBase `json:\"base\"`\n\tOwn string `json:\"own\"`\n}"),
 		mk("SEmbedUnexported", "embedded unexported struct type", "struct {\n\thidden\n\tOwn string `json:\"own\"`\n}"),
+		// fields that shadow / compete with the fields of an embedding (Go's promotion rules: the shallower field wins,
+		// two fields of one JSON name at the same depth cancel each other)
+		mk("SShadowSameName", "own field shadows an embedded field (same Go and JSON name, other type)", "struct {\n\tBase\n\tID string `json:\"id\"`\n}"),
+		mk("SShadowPtr", "own field shadows a field of an embedded pointer", "struct {\n\t*Base\n\tID string `json:\"id\"`\n\tOwn int32 `json:\"own\"`\n}"),
+		mk("SShadowJSONName", "own field takes the JSON name of an embedded field (other Go name, other type)", "struct {\n\tBase\n\tIdent []string `json:\"id\"`\n}"),
+		mk("SShadowOmit", "own field shadows an embedded omitempty field", "struct {\n\tBase\n\tKind int32 `json:\"kind\"`\n}"),
+		mk("STwoEmbeds", "two embeddings with a field of one JSON name at the same depth", "struct {\n\tBase\n\tOther\n}"),
 		mk("SAnonymous", "anonymous struct field", "struct {\n\tIn struct {\n\t\tX int32 `json:\"x\"`\n\t\tY []string `json:\"y,omitempty\"`\n\t} `json:\"in\"`\n}"),
 		mk("SAnonymousSlice", "slice of anonymous struct", "struct {\n\tIn []struct {\n\t\tX int32 `json:\"x\"`\n\t} `json:\"in\"`\n}"),
 		mk("SUnexported", "unexported field", "struct {\n\tpriv string\n\tPub  string `json:\"pub\"`\n}"),
@@ -526,7 +541,7 @@ func inFormatRange(schema J, root J, doc interface{}) bool {
 func RunC16(tier, replay string) int {
 	quietLogs()
 	r := evid.New("C16", tier)
-	r.Rule = "Go model declarations `type Cn struct { F <T> <tag>; G string }`: T = 16 basic kinds and 15 special types (time.Time, json.RawMessage, interface{}, []byte, named basic/struct/slice/map/bytes types, alias, strfmt types) under <=1 (quick) / <=2 (thorough) wrappers out of {*, [], [2], map[string]} x 7 json tag shapes, plus 20 struct shapes (embedded value/pointer/allOf/tagged/unexported, anonymous structs, unexported and ignored fields, strfmt annotation, generic instantiation, ,string on several kinds ...). The package is scanned by the real `swagger generate spec -m` and compiled; values built by reflection (zero, non-zero, min, max, nil vs empty containers, numeric strings) are encoded with encoding/json and validated against the scanned definition; candidate documents the scanned definition accepts are decoded into the type. distinct = (type, value mode | document); non-trivial = the definition exists and the comparison was made"
+	r.Rule = "Go model declarations `type Cn struct { F <T> <tag>; G string }`: T = 16 basic kinds and 15 special types (time.Time, json.RawMessage, interface{}, []byte, named basic/struct/slice/map/bytes types, alias, strfmt types) under <=1 (quick) / <=2 (thorough) wrappers out of {*, [], [2], map[string]} x 7 json tag shapes, plus 25 struct shapes (embedded value/pointer/allOf/tagged/unexported, own fields shadowing embedded ones, two embeddings competing for a JSON name, anonymous structs, unexported and ignored fields, strfmt annotation, generic instantiation, ,string on several kinds ...). The package is scanned by the real `swagger generate spec -m` and compiled; values built by reflection (zero, non-zero, min, max, nil vs empty containers, numeric strings) are encoded with encoding/json and validated against the scanned definition; candidate documents the scanned definition accepts are decoded into the type. distinct = (type, value mode | document); non-trivial = the definition exists and the comparison was made"
 	r.Assume = []string{"encoding/json is the ground truth; go-openapi/validate decides validity against the scanned definition (rooted at the scanned document)", "integer candidates outside the declared format's range are outside the alphabet"}
 	s := NewScratch("C16")
 	defer s.Close()
